@@ -432,7 +432,7 @@ func (r *replayer) value(t *Term, typ types.Type, depth int) string {
 			return "nil"
 		}
 		ks, vs := r.x.tm.SortOf(u.Key()), r.x.tm.SortOf(u.Elem())
-		dom := Sel(r.x.initial(mapDomKey(ks), ArrSort(SRef, ArrSort(ks, SBool))), t)
+		dom := Sel(r.x.initial(mapDomKey(ks, vs), ArrSort(SRef, ArrSort(ks, SBool))), t)
 		val := Sel(r.x.initial(mapValKey(ks, vs), ArrSort(SRef, ArrSort(ks, vs))), t)
 		var ents []string
 		addKey := func(kt *Term, goKey string) {
